@@ -1,8 +1,8 @@
 (** C13 — SPARQL answers equal evaluation over the stored triple set: the property theorems
-    (statements only; proofs are in Rdf/ProofsStore.v, ProofsAlgebra.v, ProofsEngine.v).
+    (statements only; proofs are in Rdf/ProofsStore.v, ProofsAlgebra.v, ProofsEngine.v, ProofsBgp.v, ProofsBgpSpec.v).
     Pinned by props/C13.statements. *)
-From GV Require Export Rdf.Spec Rdf.Run.
-From GV Require Import Rdf.ProofsStore Rdf.ProofsAlgebra Rdf.ProofsEngine.
+From GV Require Export Rdf.Spec Rdf.Run Rdf.SpecSparql.
+From GV Require Import Rdf.ProofsStore Rdf.ProofsAlgebra Rdf.ProofsEngine Rdf.ProofsBgp Rdf.ProofsBgpSpec.
 Open Scope Z_scope.
 
 (** * the triple store (model of graph/rdf/store.rs) *)
@@ -106,6 +106,21 @@ Theorem bgp_split : forall n g tps1 tps2,
 Proof. exact bgp_split_l. Qed.
 Print Assumptions bgp_split.
 
+(** [eval_bgp] computes exactly the solutions of the declarative definition (section 18.3):
+    mappings whose domain is the set of variables of the pattern and which instantiate every
+    triple pattern to a triple of the graph *)
+Theorem bgp_spec : forall n g tps m,
+  (forall v, In v (flat_map tpat_vars tps) -> (v < n)%nat) ->
+  (In m (eval_bgp n g tps) <-> bgp_solution n g tps m).
+Proof. exact bgp_spec_l. Qed.
+Print Assumptions bgp_spec.
+
+(** over a set of triples every solution occurs exactly once *)
+Theorem bgp_once : forall n g tps,
+  (forall v, In v (flat_map tpat_vars tps) -> (v < n)%nat) -> NoDup g -> NoDup (eval_bgp n g tps).
+Proof. exact bgp_once_l. Qed.
+Print Assumptions bgp_once.
+
 Theorem optional_spec : forall c o1 o2,
   Permutation (left_join c o1 o2)
               (filter (holds_opt c) (join o1 o2) ++
@@ -180,3 +195,44 @@ Theorem select_refuted : forall c, 1 <= c <= 8 ->
   exists n ds q, k_class_g n ds q = c /\ select_agrees n ds q = false.
 Proof. exact select_refuted_l. Qed.
 Print Assumptions select_refuted.
+
+(** the engine evaluates a basic graph pattern to exactly the solutions of the algebra, after any
+    history of the store, outside the classes S2 (a variable twice in a triple pattern), S3 (two
+    stored terms with one rendering) and S4 (a constant the translator alters) *)
+Theorem bgp_engine_spec : forall c ops n tps,
+  let st := reach c ops in
+  bgp_plain n tps -> render_injective_on (graph_terms (triples st)) ->
+  exists T, plan_pat st (PBgp tps) = Done T /\ pat_cols (PBgp tps) = Some (t_cols T) /\
+            Permutation (all_live (t_chunks T)) (map (sol_row (t_cols T)) (eval_bgp n (triples st) tps)).
+Proof. exact bgp_engine_spec_l. Qed.
+Print Assumptions bgp_engine_spec.
+
+Theorem select_bgp_spec : forall c ops n tps,
+  let st := reach c ops in
+  bgp_plain n tps -> render_injective_on (graph_terms (triples st)) ->
+  exists cols rows,
+    run_select st (Query false ProjStar (PBgp tps) [] None None) = Done (cols, rows) /\
+    pat_cols (PBgp tps) = Some cols /\
+    Permutation rows
+      (map (map render_rcell) (snd (eval_query n (triples st) (Query false (ProjVars cols) (PBgp tps) [] None None)))).
+Proof. exact select_bgp_spec_l. Qed.
+Print Assumptions select_bgp_spec.
+
+Theorem count_bgp_spec : forall c ops n tps,
+  let st := reach c ops in
+  bgp_plain n tps -> render_injective_on (graph_terms (triples st)) ->
+  run_select st (Query false ProjCount (PBgp tps) [] None None)
+  = Done ([count_col], map (map render_rcell) (snd (eval_query n (triples st) (Query false ProjCount (PBgp tps) [] None None)))).
+Proof. exact count_bgp_spec_l. Qed.
+Print Assumptions count_bgp_spec.
+
+Example bgp_hypotheses_nonvacuous :
+  bgp_plain 3 [TPat (TVar 0) (TConst (Iri [112])) (TVar 1); TPat (TVar 1) (TConst (Iri [112])) (TVar 2)] /\
+  render_injective_on (graph_terms (triples (reach true [Insert (Triple (Iri [97]) (Iri [112]) (Iri [98]));
+                                                         Insert (Triple (Iri [98]) (Iri [112]) (lit_plain [120]))]))).
+Proof.
+  split.
+  - split; [discriminate|]. intros tp [<-|[<-|[]]]; (split; [repeat constructor; cbn; intuition discriminate|]);
+      (split; [intros c0 [<-|[]]; reflexivity|intros v [<-|[<-|[]]]; auto]).
+  - intros x y Hx Hy. vm_compute in Hx, Hy. intuition subst; try reflexivity; discriminate.
+Qed.
